@@ -11,8 +11,8 @@ type DeflateReader struct {
 	derr error         // sticky error
 }
 
-func NewDeflateReader(body io.ReadCloser) *DeflateReader {
-	return &DeflateReader{Body: body}
+func NewDeflateReader(body io.ReadCloser) CompressReader {
+	return withMessageEnd(&DeflateReader{Body: body})
 }
 
 func (df *DeflateReader) Read(p []byte) (n int, err error) {
